@@ -261,6 +261,25 @@ def _r164(ctx: Ctx) -> None:
                 ret = s.value
             else:
                 raise AnalysisError('R16.4', site_of(mi, s), f'{fn.name}: not straight-line')
+        # what counts is the POSITION a name is unpacked from, not how the local is called: rename the locals to
+        # the documented names of their positions (p_th, nu, A, B, C) / (p, d) before comparing formulas
+        canon = {'x_data': ['p', 'd'], 'params': ['p_th', 'nu', 'A', 'B', 'C']}
+        ren = {}
+        for src_, names in unpack.items():
+            if src_ in canon and len(names) == len(canon[src_]):
+                ren.update(dict(zip(names, canon[src_])))
+        clash = (set(env) & set(ren.values())) - set(ren)
+
+        class _Ren(ast.NodeTransformer):
+            def visit_Name(self, n):
+                return ast.copy_location(ast.Name(id=ren.get(n.id, n.id), ctx=n.ctx), n)
+        if clash:
+            raise AnalysisError('R16.4', site_of(mi, fn), f'{fn.name}: local name(s) {sorted(clash)} shadow a documented '
+                                                          f'parameter name')
+        import copy as _copy
+        ret = _Ren().visit(_copy.deepcopy(ret)) if ret is not None else None
+        env = {ren.get(k, k): _Ren().visit(_copy.deepcopy(v)) for k, v in env.items()}
+        unpack = {k: [ren.get(x, x) if (k in canon and len(v) == len(canon[k])) else x for x in v] for k, v in unpack.items()}
         return ret, env, unpack
     want = 'A + B*((p - p_th)*d**nu) + C*((p - p_th)*d**nu)**2'
     syms = ['p', 'd', 'p_th', 'nu', 'A', 'B', 'C']
